@@ -51,7 +51,7 @@ func ruleC07Order(e *Env) {
 				for d := -1; d <= 1; d++ {
 					construct := fmt.Sprintf("year%s month%s day%s", ordSym(y), ordSym(m), ordSym(d))
 					o := &ordOracle{ord: map[string]int{"d.year|e.year": y, "d.month|e.month": m, "d.day|e.day": d}}
-					ev := &pred.Evaluator{Prog: e.P.SSA, Oracle: o}
+					ev := &pred.Evaluator{Prog: e.P.SSA, GlobalInit: e.globalTables(), Oracle: o}
 					out, err := ev.Eval(fn, []pred.Val{symStruct(dateT, "d"), symStruct(dateT, "e")})
 					if err != nil {
 						e.S.Unk(rule, site, construct, "not decidable by field-order abstraction: "+err.Error(), e.Pos(fn))
@@ -101,7 +101,7 @@ func ruleC07Order(e *Env) {
 		site := flow.FnName(fn)
 		for mask := 0; mask < 8; mask++ {
 			ord := map[string]int{"d.year|0": mask & 1, "d.month|0": mask >> 1 & 1, "d.day|0": mask >> 2 & 1}
-			ev := &pred.Evaluator{Prog: e.P.SSA, Oracle: &ordOracle{ord: ord}}
+			ev := &pred.Evaluator{Prog: e.P.SSA, GlobalInit: e.globalTables(), Oracle: &ordOracle{ord: ord}}
 			out, err := ev.Eval(fn, []pred.Val{symStruct(dateT, "d")})
 			construct := fmt.Sprintf("year≠0:%d month≠0:%d day≠0:%d", mask&1, mask>>1&1, mask>>2&1)
 			if err != nil {
@@ -264,7 +264,7 @@ func ruleC07Deleg(e *Env) {
 	}
 	eval := func(fn *ssa.Function, args ...pred.Val) (pred.Val, error) {
 		log = nil
-		ev := &pred.Evaluator{Prog: e.P.SSA, Oracle: noOracle{}, Summaries: sums}
+		ev := &pred.Evaluator{Prog: e.P.SSA, GlobalInit: e.globalTables(), Oracle: noOracle{}, Summaries: sums}
 		out, err := ev.Eval(fn, args)
 		if err != nil {
 			return nil, err
@@ -412,7 +412,7 @@ func ruleFromTime(e *Env, rule string, a *dateAbs) {
 		for _, zero := range []bool{true, false} {
 			construct := map[bool]string{true: "zero time", false: "non-zero time"}[zero]
 			o := &ordOracle{ord: map[string]int{"(time.Time).IsZero(t)|true": map[bool]int{true: 0, false: 1}[zero]}}
-			ev := &pred.Evaluator{Prog: e.P.SSA, Oracle: o}
+			ev := &pred.Evaluator{Prog: e.P.SSA, GlobalInit: e.globalTables(), Oracle: o}
 			var fields []pred.Val
 			if which == "method" {
 				recv := &pred.Cell{V: a.recv("old"), Name: "recv"}
@@ -508,7 +508,7 @@ func ruleNewDeleg(e *Env, rule string) {
 			return nil, &pred.Undecided{Reason: "(*Date).FromTime on an unmodelled receiver"}
 		}
 	}
-	ev := &pred.Evaluator{Prog: e.P.SSA, Oracle: noOracle{}, Summaries: sums}
+	ev := &pred.Evaluator{Prog: e.P.SSA, GlobalInit: e.globalTables(), Oracle: noOracle{}, Summaries: sums}
 	out, err := ev.Eval(fn, []pred.Val{pred.Sym{Name: "year"}, pred.Sym{Name: "month"}, pred.Sym{Name: "day"}})
 	want := "FromTime(time.Date(year,month,day,0,0,0,0,*time.UTC))"
 	switch {
